@@ -36,7 +36,7 @@ package types
 // DustTxoutAmount = 1000, MaxTaxBP = 10000 (100 %).
 
 //@ func (Params).Validate
-//@ property C20 C18
+//@ property C20 C18 C03
 //@ ensures inv20: err == nil ==> p.DepositTaxRate < MaxTaxBP && p.MinDepositAmount >= DustTxoutAmount && p.ConfirmationNumber >= 1
 //@ ensures magic_len: err == nil ==> len(p.DepositMagicPrefix) == DepositMagicLen
 //@ ensures [C18] tax_pair: err == nil ==> (p.DepositTaxRate > 0 ==> p.MaxDepositTax > 0 && p.MaxDepositTax <= 100000000) && (p.DepositTaxRate == 0 ==> p.MaxDepositTax == 0)
